@@ -20,11 +20,20 @@
   Hypotheses common to the view theorems: `FileOk` (class 32/64, the Spec's compression header,
   ELFCOMPRESS_ZLIB named, no phantom bytes), no relocation section applies to a debug section
   (`NoReloc`, part of `Holds`; relocation is C08's subject), sizes fit their header fields.
+
+  WHOLE FILES.  The section-table theorems are composed with C01 (`open_exact`, `sections_exact` and
+  their `wfZ` variants for SHF_COMPRESSED sections) in the second half of the file: `view_of_file`,
+  `view_of_file_z`, `view_plain_eq_zdebug_file`, `view_plain_eq_gabi_file`, `view_with_sup_file` take
+  an abstract ELF description `d : Spec.ElfDesc`, ANY byte string with `Spec.Layout d bytes`, and a
+  description-level hypothesis `HoldsD` (bodies in the description, names by `d.indexOfName`), and
+  conclude about `dwarfView P fuel loader bytes …` — `ELFFile(BytesIO(bytes)).get_dwarf_info()`.
 -/
 import PyElf.Model.DwarfView
 import PyElf.Spec.Container
 import PyElf.Proofs.Container
+import PyElf.Proofs.ContainerFile
 import PyElf.Props.TieC11
+import PyElf.Props.C01
 namespace PyElf.Props.C11
 open PyElf PyElf.Model PyElf.Model.C11 PyElf.Spec.C11 PyElf.Proofs.C11
 
@@ -280,6 +289,256 @@ theorem sup_without_loader (P : Params) (again : Option Loader → Bytes → Boo
     supplementary P again none f ds = .ok none :=
   supplementary_no_loader P again f ds DS path hDS hp
 
+/-- THE SUPPLEMENTARY FILE, END TO END (`sup_followed` composed with `view_of_content`).  A file
+    storing `content`, whose content names a supplementary file (`SupLink … (some path)`: `.debug_sup`
+    with `is_supplementary = 0`, or `.gnu_debugaltlink`), read with links on and a loader that has
+    `path ↦ supData`, where `supData` opens as a file storing `contentS` in whatever encodings:
+    the view is the file's content with the supplementary file's content attached.  The
+    supplementary file is opened without a loader, so whatever ITS content says about further files
+    (`pS`; a real one says `is_supplementary = 1`) nothing more is attached. -/
+theorem view_with_sup {P : Params} {deflate : Nat → Bytes → Bytes} {f fs : ElfFile}
+    (hf : FileOk P deflate f) (hfs : FileOk P deflate fs) (hs : SupOk P f) (hss : SupOk P fs)
+    (fuel : Nat) (ld : Loader) (secs secsS : List Sec) (relocate : Bool) (content contentS : Content) (m mS : Val)
+    (hm : f.header.getField "e_machine" = .ok m) (hmS : fs.header.getField "e_machine" = .ok mS)
+    (hh : Holds P deflate f secs relocate content)
+    (hlink : linkTarget secs (some ld) true = none)
+    (path supData : Bytes) (hsl : SupLink f.le content (some path)) (hld : ld path = some supData)
+    (hloadS : load P supData = .ok (fs, secsS))
+    (hhS : Holds P deflate fs secsS true contentS)
+    (pS : Option Bytes) (hslS : SupLink fs.le contentS pS) :
+    (getDwarfInfoCore P (getDwarfInfo P (fuel + 1)) (some ld) f secs relocate true).map DwarfInfo.view
+      = .ok (.mk f.le (f.cls / 8) (P.machineArchOf m) (contentView P.names content)
+          (some (.mk fs.le (fs.cls / 8) (P.machineArchOf mS) (contentView P.names contentS) none))) := by
+  rw [core_unlinked P _ (some ld) f secs relocate true hlink]
+  refine ownInfo_with_sup hf hs _ ld secs relocate content m hm hh path supData hsl hld _ ?_
+  have := dwarfView_loaded P fuel none supData true true fs secsS hloadS
+  unfold dwarfView at this
+  rw [this, core_unlinked P _ none fs secsS true true (linkTarget_none_of secsS none true (Or.inr (Or.inl rfl)))]
+  exact ownInfo_no_loader hfs hss _ secsS true true contentS mS hmS hhS pS hslS
+
+/-! ### whole files: composition with C01 (header, section table and bodies decoded from the bytes)
+
+  `d : Spec.ElfDesc` is an abstract ELF description, `Spec.Layout d bytes` says the byte string carries
+  it (C01), `obs = d.observe` is what C01 proves the reader reports for it.  `HoldsD names deflate d obs
+  relocate content allowed` (Proofs/ContainerFile.lean) is `HoldsEnc` at the level of the description:
+  every name of the reader's table resolves — by the description's own `indexOfName` — to nothing
+  where the content has nothing, and otherwise to a section whose BODY IN THE DESCRIPTION is the Spec
+  encoding of the payload.  No hypothesis mentions the model's section table or the file's bytes
+  other than `Layout`.  The struct factory and machine classification are the standards-side ones
+  (`SpecParams`), which TieC01 proves equal to what /repo builds. -/
+
+/-- the parameters the whole-file theorems are stated for -/
+structure SpecParams (P : Params) : Prop where
+  structs : P.structsFor = C01.specStructs
+  mclass : P.machineClassOf = C01.specMachineClass
+
+/-- C01, packaged: a byte string that carries a well-formed description opens, with the
+    description's class, byte order, bundle and header, and enumerates the description's sections -/
+theorem opened_of_wf {P : Params} (hP : SpecParams P) (d : Spec.ElfDesc) (bytes : Bytes) (obs : Spec.ElfObs)
+    (hwf : d.wf P.env = true) (hl : Spec.Layout d bytes) (ho : d.observe P.env = .ok obs) :
+    ∃ f, Opened P d bytes obs f := by
+  obtain ⟨f, hopen, hdata, hcls, hle, hS, hh⟩ := C01.open_exact P.env d bytes obs hwf hl ho
+  have hsecs := C01.sections_exact P.env d bytes obs f hwf hl ho hopen
+  exact ⟨f, by rw [hP.structs, hP.mclass]; exact hopen, hdata, hcls, hle, hS, hh, hsecs⟩
+
+/-- MAIN THEOREM, whole-file form.  `ELFFile(BytesIO(bytes)).get_dwarf_info()` on any byte string
+    that carries a well-formed description storing `content` — plainly or in the legacy `.zdebug`
+    framing, in any mix (`ElfDesc.wf` admits no SHF_COMPRESSED section: `view_of_file_z` below) —
+    yields exactly the content: payload bytes, their length and the address per keyword, the
+    configuration from the file header. -/
+theorem view_of_file {P : Params} {deflate : Nat → Bytes → Bytes} (hP : SpecParams P)
+    (henv : P.env.enumDecode "ENUM_ELFCOMPRESS_TYPE" 1 = some "ELFCOMPRESS_ZLIB") (hz : ZlibOk P.X deflate)
+    (d : Spec.ElfDesc) (bytes : Bytes) (obs : Spec.ElfObs)
+    (hwf : d.wf P.env = true) (hl : Spec.Layout d bytes) (ho : d.observe P.env = .ok obs)
+    (hph : hasPhantomBytes obs.header = .ok false)
+    (fuel : Nat) (loader : Option Loader) (relocate followLinks : Bool) (content : Content) (m : Val)
+    (hm : obs.header.getField "e_machine" = .ok m) {allowed : Enc → Prop}
+    (hh : HoldsD P.names deflate d obs relocate content allowed)
+    (hlink : linkTarget obs.sections loader followLinks = none)
+    (hsup : followLinks = false ∨
+      ((∃ DS, P.dwarfStructsFor ⟨d.le, 32, d.cls / 8, 2⟩ = some DS) ∧
+        content "debug_sup_sec" = none ∧ content "gnu_debugaltlink_sec" = none)) :
+    dwarfView P (fuel + 1) loader bytes relocate followLinks
+      = .ok (.mk d.le (d.cls / 8) (P.machineArchOf m) (contentView P.names content) none) := by
+  obtain ⟨f, hop⟩ := opened_of_wf hP d bytes obs hwf hl ho
+  exact view_of_opened hop (Proofs.layout_facts hl) ho (Proofs.wf_facts hwf).cls henv hz hph fuel loader relocate
+    followLinks content m hm hh hlink hsup
+
+/-- invariance at the level of bytes: two byte strings carrying descriptions of the same class, byte
+    order and machine that store the same content have the same view -/
+theorem view_invariant_file {P : Params} {deflate : Nat → Bytes → Bytes} (hP : SpecParams P)
+    (henv : P.env.enumDecode "ENUM_ELFCOMPRESS_TYPE" 1 = some "ELFCOMPRESS_ZLIB") (hz : ZlibOk P.X deflate)
+    (d₁ d₂ : Spec.ElfDesc) (bytes₁ bytes₂ : Bytes) (obs₁ obs₂ : Spec.ElfObs)
+    (hwf₁ : d₁.wf P.env = true) (hl₁ : Spec.Layout d₁ bytes₁) (ho₁ : d₁.observe P.env = .ok obs₁)
+    (hwf₂ : d₂.wf P.env = true) (hl₂ : Spec.Layout d₂ bytes₂) (ho₂ : d₂.observe P.env = .ok obs₂)
+    (hph₁ : hasPhantomBytes obs₁.header = .ok false) (hph₂ : hasPhantomBytes obs₂.header = .ok false)
+    (hle : d₁.le = d₂.le) (hcls : d₁.cls = d₂.cls) (m : Val)
+    (hm₁ : obs₁.header.getField "e_machine" = .ok m) (hm₂ : obs₂.header.getField "e_machine" = .ok m)
+    (fuel₁ fuel₂ : Nat) (loader₁ loader₂ : Option Loader) (relocate followLinks : Bool) (content : Content)
+    {allowed₁ allowed₂ : Enc → Prop}
+    (hh₁ : HoldsD P.names deflate d₁ obs₁ relocate content allowed₁)
+    (hh₂ : HoldsD P.names deflate d₂ obs₂ relocate content allowed₂)
+    (hk₁ : linkTarget obs₁.sections loader₁ followLinks = none)
+    (hk₂ : linkTarget obs₂.sections loader₂ followLinks = none)
+    (hsup : followLinks = false ∨
+      ((∃ DS, P.dwarfStructsFor ⟨d₁.le, 32, d₁.cls / 8, 2⟩ = some DS) ∧
+        content "debug_sup_sec" = none ∧ content "gnu_debugaltlink_sec" = none)) :
+    dwarfView P (fuel₁ + 1) loader₁ bytes₁ relocate followLinks
+      = dwarfView P (fuel₂ + 1) loader₂ bytes₂ relocate followLinks := by
+  rw [view_of_file hP henv hz d₁ bytes₁ obs₁ hwf₁ hl₁ ho₁ hph₁ fuel₁ loader₁ relocate followLinks content m hm₁ hh₁ hk₁ hsup,
+      view_of_file hP henv hz d₂ bytes₂ obs₂ hwf₂ hl₂ ho₂ hph₂ fuel₂ loader₂ relocate followLinks content m hm₂ hh₂ hk₂
+        (by rw [← hle, ← hcls]; exact hsup),
+      hle, hcls]
+
+/-- a file whose debug sections are stored plainly and one holding the same content re-encoded in
+    the legacy `.zdebug` framing (any subset of the renamed sections, any deflate levels) have the
+    same view — as byte strings, through header, section-table and name decoding -/
+theorem view_plain_eq_zdebug_file {P : Params} {deflate : Nat → Bytes → Bytes} (hP : SpecParams P)
+    (henv : P.env.enumDecode "ENUM_ELFCOMPRESS_TYPE" 1 = some "ELFCOMPRESS_ZLIB") (hz : ZlibOk P.X deflate)
+    (d₁ d₂ : Spec.ElfDesc) (bytes₁ bytes₂ : Bytes) (obs₁ obs₂ : Spec.ElfObs)
+    (hwf₁ : d₁.wf P.env = true) (hl₁ : Spec.Layout d₁ bytes₁) (ho₁ : d₁.observe P.env = .ok obs₁)
+    (hwf₂ : d₂.wf P.env = true) (hl₂ : Spec.Layout d₂ bytes₂) (ho₂ : d₂.observe P.env = .ok obs₂)
+    (hph₁ : hasPhantomBytes obs₁.header = .ok false) (hph₂ : hasPhantomBytes obs₂.header = .ok false)
+    (hle : d₁.le = d₂.le) (hcls : d₁.cls = d₂.cls) (m : Val)
+    (hm₁ : obs₁.header.getField "e_machine" = .ok m) (hm₂ : obs₂.header.getField "e_machine" = .ok m)
+    (fuel₁ fuel₂ : Nat) (loader₁ loader₂ : Option Loader) (relocate followLinks : Bool) (content : Content)
+    (hplain : HoldsD P.names deflate d₁ obs₁ relocate content Enc.isPlain)
+    (hzd : HoldsD P.names deflate d₂ obs₂ relocate content Enc.isPlainOrZdebug)
+    (hk₁ : linkTarget obs₁.sections loader₁ followLinks = none)
+    (hk₂ : linkTarget obs₂.sections loader₂ followLinks = none)
+    (hsup : followLinks = false ∨
+      ((∃ DS, P.dwarfStructsFor ⟨d₁.le, 32, d₁.cls / 8, 2⟩ = some DS) ∧
+        content "debug_sup_sec" = none ∧ content "gnu_debugaltlink_sec" = none)) :
+    dwarfView P (fuel₁ + 1) loader₁ bytes₁ relocate followLinks
+      = dwarfView P (fuel₂ + 1) loader₂ bytes₂ relocate followLinks :=
+  view_invariant_file hP henv hz d₁ d₂ bytes₁ bytes₂ obs₁ obs₂ hwf₁ hl₁ ho₁ hwf₂ hl₂ ho₂ hph₁ hph₂ hle hcls m hm₁ hm₂
+    fuel₁ fuel₂ loader₁ loader₂ relocate followLinks content hplain hzd hk₁ hk₂ hsup
+
+/-! ### whole files with gABI-compressed sections (`ElfDesc.wfZ`: C01 extended to SHF_COMPRESSED sections) -/
+
+/-- C01 for `wfZ`, packaged -/
+theorem opened_of_wfZ {P : Params} (hP : SpecParams P) (d : Spec.ElfDesc) (bytes : Bytes) (obs : Spec.ElfObs)
+    (hwf : d.wfZ P.env = true) (hl : Spec.Layout d bytes) (ho : d.observe P.env = .ok obs) :
+    ∃ f, Opened P d bytes obs f := by
+  obtain ⟨f, hopen, hdata, hcls, hle, hS, hh⟩ := C01.open_exact_z P.env d bytes obs hwf hl ho
+  have hsecs := C01.sections_exact_z P.env d bytes obs f hwf hl ho hopen
+  exact ⟨f, by rw [hP.structs, hP.mclass]; exact hopen, hdata, hcls, hle, hS, hh, hsecs⟩
+
+/-- MAIN THEOREM, whole-file form, every encoding: the sections of the description may be stored
+    plainly, gABI-compressed (SHF_COMPRESSED, `Elf_Chdr` + deflate) or in the legacy `.zdebug`
+    framing, in any mix and at any levels; the view of any byte string carrying the description is
+    the content. -/
+theorem view_of_file_z {P : Params} {deflate : Nat → Bytes → Bytes} (hP : SpecParams P)
+    (henv : P.env.enumDecode "ENUM_ELFCOMPRESS_TYPE" 1 = some "ELFCOMPRESS_ZLIB") (hz : ZlibOk P.X deflate)
+    (d : Spec.ElfDesc) (bytes : Bytes) (obs : Spec.ElfObs)
+    (hwf : d.wfZ P.env = true) (hl : Spec.Layout d bytes) (ho : d.observe P.env = .ok obs)
+    (hph : hasPhantomBytes obs.header = .ok false)
+    (fuel : Nat) (loader : Option Loader) (relocate followLinks : Bool) (content : Content) (m : Val)
+    (hm : obs.header.getField "e_machine" = .ok m) {allowed : Enc → Prop}
+    (hh : HoldsD P.names deflate d obs relocate content allowed)
+    (hlink : linkTarget obs.sections loader followLinks = none)
+    (hsup : followLinks = false ∨
+      ((∃ DS, P.dwarfStructsFor ⟨d.le, 32, d.cls / 8, 2⟩ = some DS) ∧
+        content "debug_sup_sec" = none ∧ content "gnu_debugaltlink_sec" = none)) :
+    dwarfView P (fuel + 1) loader bytes relocate followLinks
+      = .ok (.mk d.le (d.cls / 8) (P.machineArchOf m) (contentView P.names content) none) := by
+  obtain ⟨f, hop⟩ := opened_of_wfZ hP d bytes obs hwf hl ho
+  exact view_of_opened hop (Proofs.layout_facts hl) ho (Proofs.wfZ_facts hwf).cls henv hz hph fuel loader relocate
+    followLinks content m hm hh hlink hsup
+
+/-- invariance at the level of bytes, every encoding -/
+theorem view_invariant_file_z {P : Params} {deflate : Nat → Bytes → Bytes} (hP : SpecParams P)
+    (henv : P.env.enumDecode "ENUM_ELFCOMPRESS_TYPE" 1 = some "ELFCOMPRESS_ZLIB") (hz : ZlibOk P.X deflate)
+    (d₁ d₂ : Spec.ElfDesc) (bytes₁ bytes₂ : Bytes) (obs₁ obs₂ : Spec.ElfObs)
+    (hwf₁ : d₁.wfZ P.env = true) (hl₁ : Spec.Layout d₁ bytes₁) (ho₁ : d₁.observe P.env = .ok obs₁)
+    (hwf₂ : d₂.wfZ P.env = true) (hl₂ : Spec.Layout d₂ bytes₂) (ho₂ : d₂.observe P.env = .ok obs₂)
+    (hph₁ : hasPhantomBytes obs₁.header = .ok false) (hph₂ : hasPhantomBytes obs₂.header = .ok false)
+    (hle : d₁.le = d₂.le) (hcls : d₁.cls = d₂.cls) (m : Val)
+    (hm₁ : obs₁.header.getField "e_machine" = .ok m) (hm₂ : obs₂.header.getField "e_machine" = .ok m)
+    (fuel₁ fuel₂ : Nat) (loader₁ loader₂ : Option Loader) (relocate followLinks : Bool) (content : Content)
+    {allowed₁ allowed₂ : Enc → Prop}
+    (hh₁ : HoldsD P.names deflate d₁ obs₁ relocate content allowed₁)
+    (hh₂ : HoldsD P.names deflate d₂ obs₂ relocate content allowed₂)
+    (hk₁ : linkTarget obs₁.sections loader₁ followLinks = none)
+    (hk₂ : linkTarget obs₂.sections loader₂ followLinks = none)
+    (hsup : followLinks = false ∨
+      ((∃ DS, P.dwarfStructsFor ⟨d₁.le, 32, d₁.cls / 8, 2⟩ = some DS) ∧
+        content "debug_sup_sec" = none ∧ content "gnu_debugaltlink_sec" = none)) :
+    dwarfView P (fuel₁ + 1) loader₁ bytes₁ relocate followLinks
+      = dwarfView P (fuel₂ + 1) loader₂ bytes₂ relocate followLinks := by
+  rw [view_of_file_z hP henv hz d₁ bytes₁ obs₁ hwf₁ hl₁ ho₁ hph₁ fuel₁ loader₁ relocate followLinks content m hm₁ hh₁ hk₁ hsup,
+      view_of_file_z hP henv hz d₂ bytes₂ obs₂ hwf₂ hl₂ ho₂ hph₂ fuel₂ loader₂ relocate followLinks content m hm₂ hh₂ hk₂
+        (by rw [← hle, ← hcls]; exact hsup),
+      hle, hcls]
+
+/-- `view_plain_eq_gabi` at the level of bytes: a file whose debug sections are stored plainly (`wf`:
+    no SHF_COMPRESSED section at all) and a file holding the same content with any subset of its
+    sections gABI-compressed at any levels have the same view — both decoded from their bytes
+    through header, section table, names, compression headers and deflate streams -/
+theorem view_plain_eq_gabi_file {P : Params} {deflate : Nat → Bytes → Bytes} (hP : SpecParams P)
+    (henv : P.env.enumDecode "ENUM_ELFCOMPRESS_TYPE" 1 = some "ELFCOMPRESS_ZLIB") (hz : ZlibOk P.X deflate)
+    (d₁ d₂ : Spec.ElfDesc) (bytes₁ bytes₂ : Bytes) (obs₁ obs₂ : Spec.ElfObs)
+    (hwf₁ : d₁.wf P.env = true) (hl₁ : Spec.Layout d₁ bytes₁) (ho₁ : d₁.observe P.env = .ok obs₁)
+    (hwf₂ : d₂.wfZ P.env = true) (hl₂ : Spec.Layout d₂ bytes₂) (ho₂ : d₂.observe P.env = .ok obs₂)
+    (hph₁ : hasPhantomBytes obs₁.header = .ok false) (hph₂ : hasPhantomBytes obs₂.header = .ok false)
+    (hle : d₁.le = d₂.le) (hcls : d₁.cls = d₂.cls) (m : Val)
+    (hm₁ : obs₁.header.getField "e_machine" = .ok m) (hm₂ : obs₂.header.getField "e_machine" = .ok m)
+    (fuel₁ fuel₂ : Nat) (loader₁ loader₂ : Option Loader) (relocate followLinks : Bool) (content : Content)
+    (hplain : HoldsD P.names deflate d₁ obs₁ relocate content Enc.isPlain)
+    (hgabi : HoldsD P.names deflate d₂ obs₂ relocate content Enc.isPlainOrGabi)
+    (hk₁ : linkTarget obs₁.sections loader₁ followLinks = none)
+    (hk₂ : linkTarget obs₂.sections loader₂ followLinks = none)
+    (hsup : followLinks = false ∨
+      ((∃ DS, P.dwarfStructsFor ⟨d₁.le, 32, d₁.cls / 8, 2⟩ = some DS) ∧
+        content "debug_sup_sec" = none ∧ content "gnu_debugaltlink_sec" = none)) :
+    dwarfView P (fuel₁ + 1) loader₁ bytes₁ relocate followLinks
+      = dwarfView P (fuel₂ + 1) loader₂ bytes₂ relocate followLinks :=
+  view_invariant_file_z hP henv hz d₁ d₂ bytes₁ bytes₂ obs₁ obs₂ (C01.wf_imp_wfZ P.env d₁ hwf₁) hl₁ ho₁ hwf₂ hl₂ ho₂
+    hph₁ hph₂ hle hcls m hm₁ hm₂ fuel₁ fuel₂ loader₁ loader₂ relocate followLinks content hplain hgabi hk₁ hk₂ hsup
+
+/-- the supplementary file, end to end, at the level of bytes: `bytes` carries a description storing
+    `content` that names `path`; the loader maps `path` to `bytesS`, which carries a description
+    storing `contentS`.  `ELFFile(BytesIO(bytes), stream_loader).get_dwarf_info()` yields the content
+    with the supplementary content attached.  (Stated for `wfZ`, which `wf` implies — `C01.wf_imp_wfZ`:
+    either file may store its sections in any mix of the three encodings.) -/
+theorem view_with_sup_file {P : Params} {deflate : Nat → Bytes → Bytes} (hP : SpecParams P)
+    (henv : P.env.enumDecode "ENUM_ELFCOMPRESS_TYPE" 1 = some "ELFCOMPRESS_ZLIB") (hz : ZlibOk P.X deflate)
+    (d dS : Spec.ElfDesc) (bytes bytesS : Bytes) (obs obsS : Spec.ElfObs)
+    (hwf : d.wfZ P.env = true) (hl : Spec.Layout d bytes) (ho : d.observe P.env = .ok obs)
+    (hwfS : dS.wfZ P.env = true) (hlS : Spec.Layout dS bytesS) (hoS : dS.observe P.env = .ok obsS)
+    (hph : hasPhantomBytes obs.header = .ok false) (hphS : hasPhantomBytes obsS.header = .ok false)
+    (hk1 : "debug_sup_sec" ∈ P.names.map (·.1)) (hk2 : "gnu_debugaltlink_sec" ∈ P.names.map (·.1))
+    (hDS : ∃ DS, P.dwarfStructsFor ⟨d.le, 32, d.cls / 8, 2⟩ = some DS ∧
+      DS.Dwarf_debugaltlink = altlinkCon ∧ DS.Dwarf_debugsup = debugsupCon d.le)
+    (hDSS : ∃ DS, P.dwarfStructsFor ⟨dS.le, 32, dS.cls / 8, 2⟩ = some DS ∧
+      DS.Dwarf_debugaltlink = altlinkCon ∧ DS.Dwarf_debugsup = debugsupCon dS.le)
+    (fuel : Nat) (ld : Loader) (relocate : Bool) (content contentS : Content) (m mS : Val)
+    (hm : obs.header.getField "e_machine" = .ok m) (hmS : obsS.header.getField "e_machine" = .ok mS)
+    {allowed allowedS : Enc → Prop}
+    (hh : HoldsD P.names deflate d obs relocate content allowed)
+    (hhS : HoldsD P.names deflate dS obsS true contentS allowedS)
+    (hlink : linkTarget obs.sections (some ld) true = none)
+    (path : Bytes) (hsl : SupLink d.le content (some path)) (hld : ld path = some bytesS)
+    (pS : Option Bytes) (hslS : SupLink dS.le contentS pS) :
+    dwarfView P (fuel + 2) (some ld) bytes relocate true
+      = .ok (.mk d.le (d.cls / 8) (P.machineArchOf m) (contentView P.names content)
+          (some (.mk dS.le (dS.cls / 8) (P.machineArchOf mS) (contentView P.names contentS) none))) := by
+  obtain ⟨f, hop⟩ := opened_of_wfZ hP d bytes obs hwf hl ho
+  obtain ⟨fs, hopS⟩ := opened_of_wfZ hP dS bytesS obsS hwfS hlS hoS
+  have hL := Proofs.layout_facts hl
+  have hLS := Proofs.layout_facts hlS
+  have hf : FileOk P deflate f := hop.fileOk (Proofs.wfZ_facts hwf).cls henv hz hph
+  have hfs : FileOk P deflate fs := hopS.fileOk (Proofs.wfZ_facts hwfS).cls henv hz hphS
+  have hs : SupOk P f := ⟨hk1, hk2, by rw [hop.hle, hop.hcls]; exact hDS⟩
+  have hss : SupOk P fs := ⟨hk1, hk2, by rw [hopS.hle, hopS.hcls]; exact hDSS⟩
+  rw [dwarfView_loaded P (fuel + 1) (some ld) bytes relocate true f obs.sections hop.load,
+    view_with_sup hf hfs hs hss fuel ld obs.sections obsS.sections relocate content contentS m mS
+      (by rw [hop.hheader]; exact hm) (by rw [hopS.hheader]; exact hmS)
+      (holdsEnc_of_desc hL ho hop.hdata hop.hcls hop.hle hh).holds hlink path bytesS
+      (by rw [hop.hle]; exact hsl) hld hopS.load
+      (holdsEnc_of_desc hLS hoS hopS.hdata hopS.hcls hopS.hle hhS).holds pS (by rw [hopS.hle]; exact hslS),
+    hop.hle, hop.hcls, hopS.hle, hopS.hcls]
+
 /-! ### the Spec bundles satisfy the structural hypotheses -/
 
 theorem spec_structs_ok (c : ElfCfg) :
@@ -324,5 +583,83 @@ example : encDebuglink true [0x61, 0x62] 0x01020304 = [0x61, 0x62, 0, 0, 4, 3, 2
 example : zdebugBody 3 [0xAA] = [0x5a, 0x4c, 0x49, 0x42, 0, 0, 0, 0, 0, 0, 0, 3, 0xAA] := by decide
 example : gabiBody 32 true 3 1 [0xAA] = [1, 0, 0, 0, 3, 0, 0, 0, 1, 0, 0, 0, 0xAA] := by decide
 example : (Enc.zdebug 6).legacy = legacyOf true ("debug_info_sec", nDebugInfo, true) := by decide
+
+/-! non-vacuity of the whole-file hypotheses.  (`ElfDesc.wf`/`wfZ`, `Layout` and `observe` are C01's:
+    `C01.assemble_layout`/`assemble_layout_z` produce layouts; the correspondence check evaluates them
+    on every generated file.  Here: descriptions that store a content in each encoding.) -/
+
+/-- the standards-side parameters exist -/
+example (env : Env) (X : Ext) : SpecParams ⟨env, C01.specStructs, C01.specMachineClass, fun _ => "", fun c => some (Spec.dwarfStructs c),
+    sectionNames, X⟩ := ⟨rfl, rfl⟩
+
+/-- with the Spec's DWARF structs and section-name table, `SupOk` holds for every file -/
+theorem spec_sup_ok (P : Params) (f : ElfFile) (hn : P.names = sectionNames)
+    (hD : P.dwarfStructsFor = fun c => some (Spec.dwarfStructs c)) : SupOk P f := by
+  refine ⟨by rw [hn]; decide, by rw [hn]; decide, ⟨_, by rw [hD], rfl, rfl⟩⟩
+
+private def exShdr (ty flags off size : Nat) : Fields :=
+  [("sh_type", .int ty), ("sh_flags", .int flags), ("sh_addr", .int 0), ("sh_offset", .int off), ("sh_size", .int size),
+   ("sh_link", .int 0), ("sh_info", .int 0), ("sh_addralign", .int 1), ("sh_entsize", .int 0)]
+
+private def exObsHdr (nm flags off size : Nat) (tyName : String) : Val :=
+  .record [("sh_name", .int nm), ("sh_type", .str tyName), ("sh_flags", .int flags), ("sh_addr", .int 0),
+    ("sh_offset", .int off), ("sh_size", .int size), ("sh_link", .int 0), ("sh_info", .int 0),
+    ("sh_addralign", .int 1), ("sh_entsize", .int 0)]
+
+private def exShstrtab : Bytes := [0x2e, 0x73, 0x68, 0x73, 0x74, 0x72, 0x74, 0x61, 0x62]
+
+/-- a 32-bit little-endian description: null section, `.shstrtab`, one debug section `name` with
+    body `body` and flags `flags` at offset 96 -/
+private def exDesc (name body : Bytes) (flags : Nat) : Spec.ElfDesc :=
+  { cls := 32, le := true, mclass := "default", solaris := false, core := false,
+    ehdr := [("EI_VERSION", .int 1), ("e_type", .int 1), ("e_machine", .int 3), ("e_version", .int 1), ("e_ehsize", .int 52)],
+    shoff := 128, phoff := 0, shentsize := 40, phentsize := 0,
+    sections := [⟨[], exShdr 0 0 0 0, none, 0⟩,
+                 ⟨exShstrtab, exShdr 3 0 64 (12 + name.length), some ([0] ++ exShstrtab ++ [0] ++ name ++ [0]), 1⟩,
+                 ⟨name, exShdr 1 flags 96 body.length, some body, 11⟩],
+    segments := [], shstrndx := 1 }
+
+/-- what `observe` reports for its sections (with the standard type names) -/
+private def exObs (name body : Bytes) (flags : Nat) : Spec.ElfObs :=
+  ⟨.none, [("NullSection", [], exObsHdr 0 0 0 0 "SHT_NULL"),
+           ("StringTableSection", exShstrtab, exObsHdr 1 0 64 (12 + name.length) "SHT_STRTAB"),
+           ("Section", name, exObsHdr 11 flags 96 body.length "SHT_PROGBITS")], []⟩
+
+private def exContent : Content := fun k => if k = "debug_info_sec" then some ([1, 2, 3], 0) else none
+
+/-- `.debug_info` stored plainly -/
+example : HoldsD sectionNames (fun _ x => x) (exDesc nDebugInfo [1, 2, 3] 0) (exObs nDebugInfo [1, 2, 3] 0) false
+    exContent Enc.isPlain := by
+  intro kn hk
+  simp only [sectionNames, List.mem_cons, List.not_mem_nil, or_false] at hk
+  rcases hk with rfl | rfl | rfl | rfl | rfl | rfl | rfl | rfl | rfl | rfl | rfl | rfl | rfl | rfl | rfl | rfl | rfl | rfl | rfl
+  · refine ⟨2, _, _, .plain, 96, by decide +kernel, rfl, rfl, Or.inl rfl, ?_, by decide +kernel, trivial⟩
+    exact ⟨.str "SHT_PROGBITS", 0, rfl, rfl, rfl, rfl, rfl, rfl, rfl, by decide, by simp [Enc.ok]⟩
+  all_goals (simp only [exContent, String.reduceEq, if_false]; decide +kernel)
+
+/-- the same content as `.zdebug_info` in the legacy framing -/
+example : HoldsD sectionNames (fun _ x => x) (exDesc nZdebugInfo (zdebugBody 3 [1, 2, 3]) 0)
+    (exObs nZdebugInfo (zdebugBody 3 [1, 2, 3]) 0) false exContent Enc.isPlainOrZdebug := by
+  intro kn hk
+  simp only [sectionNames, List.mem_cons, List.not_mem_nil, or_false] at hk
+  rcases hk with rfl | rfl | rfl | rfl | rfl | rfl | rfl | rfl | rfl | rfl | rfl | rfl | rfl | rfl | rfl | rfl | rfl | rfl | rfl
+  · refine ⟨2, _, _, .zdebug 6, 96, by decide +kernel, rfl, rfl, Or.inl rfl, ?_, by decide +kernel, trivial⟩
+    exact ⟨.str "SHT_PROGBITS", 0, rfl, rfl, rfl, rfl, rfl, rfl, rfl, by decide, by simp [Enc.ok]⟩
+  all_goals (simp only [exContent, String.reduceEq, if_false]; decide +kernel)
+
+/-- the same content as a SHF_COMPRESSED `.debug_info` behind an `Elf32_Chdr` -/
+example : HoldsD sectionNames (fun _ x => x) (exDesc nDebugInfo (gabiBody 32 true 3 1 [1, 2, 3]) 0x800)
+    (exObs nDebugInfo (gabiBody 32 true 3 1 [1, 2, 3]) 0x800) false exContent Enc.isPlainOrGabi := by
+  intro kn hk
+  simp only [sectionNames, List.mem_cons, List.not_mem_nil, or_false] at hk
+  rcases hk with rfl | rfl | rfl | rfl | rfl | rfl | rfl | rfl | rfl | rfl | rfl | rfl | rfl | rfl | rfl | rfl | rfl | rfl | rfl
+  · refine ⟨2, _, _, .gabi 6 1, 96, by decide +kernel, rfl, rfl, Or.inl rfl, ?_, by decide +kernel, trivial⟩
+    exact ⟨.str "SHT_PROGBITS", 0x800, rfl, rfl, rfl, rfl, rfl, rfl, rfl, by decide, by simp [Enc.ok, exDesc]⟩
+  all_goals (simp only [exContent, String.reduceEq, if_false]; decide +kernel)
+
+/-- a content naming a supplementary file through `.gnu_debugaltlink` -/
+example : SupLink true (fun k => if k = "gnu_debugaltlink_sec" then some (encAltlink [0x61] (List.replicate 20 7) ++ [], 0) else none)
+    (some [0x61]) :=
+  .altlink [0x61] (List.replicate 20 7) [] 0 (by simp) (by simp) (by simp) (by simp)
 
 end PyElf.Props.C11
